@@ -8,12 +8,14 @@ import (
 	"os"
 
 	"verif/harness/suites/cursor"
+	"verif/harness/suites/stream"
 )
 
 type cmd func(args []string)
 
 var suites = map[string]map[string]cmd{
 	"cursor": {"replay": cursor.Replay, "record": cursor.Record, "rerun": cursor.Rerun},
+	"stream": {"replay": stream.Replay, "record": stream.Record, "rerun": stream.Rerun},
 }
 
 func main() {
